@@ -117,7 +117,7 @@ export function genSplitProject(rng, p) {
   function refTo(G, X, inExtends) { // the name to write in file G for declaration X
     if (place.get(X) === G.name) return local.get(X);
     const key = G.name + "|" + X;
-    if (bindCache.has(key) && rng.chance(3, 4)) return bindCache.get(key);
+    if (bindCache.has(key) && rng.chance(3, 4) && !(inExtends && bindCache.get(key).startsWith("import("))) return bindCache.get(key);   // `extends import("…").X` is not TypeScript
     let exs = exportsOf.get(X) || [];
     let ex = exs.length && rng.chance(2, 3) ? rng.pick(exs) : null;
     if (!ex) { ex = newExport(X); exportsOf.set(X, [...exs, ex]); }
@@ -287,4 +287,38 @@ export function genWatch(rng, p) {
   // a common end game: repair everything, rebuild
   if (rng.chance(1, 2)) { for (const f of files) if (rng.chance(2, 3)) ops.push([A("u"), f[1], A(String(rng.below(2)))]); ops.push([A("r")]); }
   return [[A("files"), ...files], [A("ops"), ...ops]];
+}
+
+// ---------- enums behind re-export chains (outside the Lean module model: such requests are `untied`, the oracle still compares
+// the single-file and the multi-file compilation) ----------
+export function genEnumLayer(rng) {
+  const members = 'A = "a", B = "b"';
+  const files = [];
+  // the library: exported directly, or a differently named enum exported under the name, next to a same-named non-exported decoy
+  let libName = "enums.ts", exported = "En";
+  const style = rng.below(3);
+  if (style === 0) files.push([libName, `export enum En { ${members} }\n`]);
+  else if (style === 1) files.push([libName, `enum Inner { ${members} }\nexport { Inner as En };\n`]);
+  else files.push([libName, `enum En { A = "internal", B = "internal2" }\nenum Pub { ${members} }\nexport { Pub as En };\n`]);
+  // 0–2 barrels
+  let from = libName, name = exported;
+  const nb = rng.below(3);
+  for (let i = 0; i < nb; i++) {
+    const bn = `barrel${i + 1}.ts`;
+    const spec = "./" + from.replace(/\.ts$/, "");
+    const r = rng.below(4);
+    if (r === 0) files.push([bn, `export { ${name} } from "${spec}";\n`]);
+    else if (r === 1) { const nn = name + "x"; files.push([bn, `export { ${name} as ${nn} } from "${spec}";\n`]); name = nn; }
+    else if (r === 2) files.push([bn, `import { ${name} } from "${spec}";\nexport { ${name} };\n`]);
+    else files.push([bn, `export * from "${spec}";\n`]);
+    from = bn;
+  }
+  const spec = "./" + from.replace(/\.ts$/, "");
+  let imp, path;
+  const r = rng.below(3);
+  if (r === 0) { imp = `import { ${name} } from "${spec}";`; path = name; }
+  else if (r === 1) { imp = `import { ${name} as E9 } from "${spec}";`; path = "E9"; }
+  else { imp = `import * as ENS from "${spec}";`; path = `ENS.${name}`; }
+  const use = rng.pick([(q) => `${q}.A | { tag: ${q}.B }`, (q) => `{ tag: ${q}.B }`, (q) => `${q}`, (q) => `${q}.A`]);
+  return { singleDecl: `enum En { ${members} }`, singleType: use("En"), files, entryImport: imp, entryType: use(path) };
 }
